@@ -146,8 +146,39 @@ fn seq_impl(diag: bool, tokens: &[&str], probes_only: bool) -> Option<String> {
     })
 }
 
+/// The ranges of the diagnostics the REAL broker publishes (document::notify -> create_diagnostic, messages formatted)
+/// when `text` is opened by a client that announced diagnostics: `l:c-l:c;` per diagnostic, in order.
+pub fn published_ranges(text: &str) -> Result<Vec<(u64, u64, u64, u64)>, String> {
+    let tok = format!("O0={}", if text.is_empty() { "-".to_string() } else { hex_str(text) });
+    let out = seq_impl(true, &[tok.as_str()], false).ok_or("bad-case".to_string())?;
+    if out.starts_with("PANIC") {
+        return Err(out);
+    }
+    let events: Value = serde_json::from_str(&out).map_err(|e| e.to_string())?;
+    let mut last: Option<Value> = None;
+    for e in events.as_array().cloned().unwrap_or_default() {
+        if let Some(d) = e.get("d") {
+            last = Some(d[1].clone());
+        }
+    }
+    let mut v = vec![];
+    for d in last.and_then(|l| l.as_array().cloned()).unwrap_or_default() {
+        let r = &d["range"];
+        v.push((r["start"]["line"].as_u64().unwrap_or(0), r["start"]["character"].as_u64().unwrap_or(0),
+                r["end"]["line"].as_u64().unwrap_or(0), r["end"]["character"].as_u64().unwrap_or(0)));
+    }
+    Ok(v)
+}
+
 pub fn run(op: &str, args: &[&str]) -> Option<String> {
     match op {
+        "PUB" => {
+            let text = if args.first()? == &"-" { String::new() } else { unhex_str(args.first()?)? };
+            Some(match published_ranges(&text) {
+                Ok(v) => v.iter().map(|(a, b, c, d)| format!("{}:{}-{}:{};", a, b, c, d)).collect::<String>(),
+                Err(e) => e,
+            })
+        }
         "SEQ" => {
             let diag = *args.first()? == "1";
             seq(diag, &args[1..])
